@@ -274,6 +274,21 @@ func runC07(c *core.Ctx) {
 		}
 		bounds = append(bounds, fmt.Sprintf("%d control-statement-in-operand programs x 4 scopes; references read / written after the variable was deleted (15 uses x 6 values x 2 shapes)", n))
 	}
+	// 2d. the `info` identifier (stack, globals) read at every call depth, from closures created deeper or shallower than
+	//     where they are called, in loops, in recursion, through eval
+	if ok {
+		reads := []string{"info", "info.stack", "info.globals", "len(info.stack)", "println(info)", "info.all_ids", "keys(info)", "info.stack[0]", "str(info.stack)"}
+		n := 0
+		for _, rd := range reads {
+			for _, shape := range []string{"%s", "show = func() { %s }; show()", "show = func() { %s }; caller = func() { show() }; caller()", "show = func() { %s }; c1 = func() { c2 = func() { show() }; c2() }; c1()",
+				"mk = func() { func() { func() { %s } } }; inner = mk()(); inner()", "mk = func() { func() { %s } }; g = mk(); h = func() { g() }; h()", "func r(n) { if n == 0 { %s } else { r(n - 1) } }; r(5)",
+				"for i = 2 { func() { %s }() }", "func named() { for e = [1] { x = func() { %s }; x() } }; named()", "eval(\"func() { %s }()\")", "f = func(a, ..) { %s }; f(1, 2, 3)", "m9 = {\"f\": func() { %s }}; m9.f()"} {
+				n++
+				do("info", prelude, strings.ReplaceAll(shape, "%s", rd))
+			}
+		}
+		bounds = append(bounds, fmt.Sprintf("%d programs reading info / info.stack / info.globals at every combination of call depth and lexical depth", n))
+	}
 	// 3a. the stateful image API: two images of every size combination x every image operation with boundary arguments
 	if ok {
 		dims := []int{0, 1, 2, 5}
@@ -285,6 +300,12 @@ func runC07(c *core.Ctx) {
 				for _, w2 := range dims {
 					for _, h2 := range dims {
 						pre := fmt.Sprintf("image.new(\"ia\", %d, %d); image.new(\"ib\", %d, %d)\n", w1, h1, w2, h2)
+						// both images with their corner pixels set (merging reads and writes real colour data)
+						lit := fmt.Sprintf("image.set(\"ia\", %d, %d, [255, 254, 253, 252]); image.set(\"ia\", 0, 0, [1, 2, 3]); image.set(\"ib\", %d, %d, [9, 8, 7, 6]); image.set(\"ib\", 0, 0, [250, 251, 252]); ", w1-1, h1-1, w2-1, h2-1)
+						for _, op := range []string{`image.add("ia", "ib"); image.png("ia")`, `image.add("ib", "ia"); image.png("ib")`, `image.add("ia", "ia")`} {
+							n++
+							do("image", "", pre+lit+op)
+						}
 						for _, op := range []string{`image.add("ia", "ib")`, `image.add("ib", "ia")`, `image.add("ia", "ia")`, `image.add("ia", "nope")`, `image.add("nope", "ia")`,
 							`image.add("ia", "ib"); image.png("ia")`, `image.draw("ia", [1, 2, 3]); image.add("ib", "ia"); image.png("ib")`} {
 							n++
